@@ -196,6 +196,21 @@ def worldLine (st : WState) (line : String) : WState × List String :=
     let lt := match lt with
       | h :: rest => if ["gget", "ggetmut", "gins", "grem", "lget", "lgetmut"].contains h then (h.drop 1).toString :: rest else lt
       | [] => lt
+    -- `ldrain2 k @h`: two look-ups of the same entity through a draining lending join. The first one is the model's
+    -- `rem`; the component has then been moved out, so the second must not produce it again (C08: no operation exposes
+    -- a value that has already been moved out) — the crate panics there, `none` after an absent first answer
+    let (lt, r, drainOut) : List String × String × List String :=
+      match lt with
+      | "ldrain2" :: rest =>
+        (match r.splitOn " / " with
+         | [first, second] =>
+           let ok2 := if first.startsWith "some" then second == "panic" else second == "none"
+           ("rem" :: rest, first,
+            if ok2 then [] else
+              [s!"MON C08 case={st.caseId} line={st.lineNo} C08 a draining lending join handed out the component of the same entity a second time (a value that had already been moved out) op=[{" ".intercalate lt}] impl=[{r}]"])
+         | _ => ("rem" :: rest, r, []))
+      | _ => (lt, r, [])
+    let st := if drainOut.isEmpty then st else { st with mons := st.mons + 1 }
     let l := " ".intercalate lt
     -- zero-sized component values are counted by the harness (they are indistinguishable): a mismatch reported with
     -- `drop_world` is a C08 verdict of its own; the remaining tokens are the ordinary result
@@ -485,7 +500,7 @@ def worldLine (st : WState) (line : String) : WState × List String :=
                   [s!"MON C05 case={st.caseId} line={st.lineNo} C05 storage {k} holds a component at index {i}, which no entity alive or awaiting maintain occupies: a deletion took effect without removing it op=[{l}] impl=[{r}]"]))
           | _, _ => (st, [])
         (st, out1 ++ out2 ++ out3 ++ out4 ++ out5 ++ out6))
-    (st', zstOut ++ outs')
+    (st', zstOut ++ drainOut ++ outs')
 
 partial def worldLoop (h : IO.FS.Stream) (st : WState) : IO WState := do
   let line ← h.getLine
